@@ -13,7 +13,7 @@
   'bound':'pool of 3 / 4 slots, any forest without base-chain links, any target slot', 'claims':'the gr_slatAttTo case of Slot::setAttr keeps the forest: it refuses self/parent/copied targets and targets below this slot (no cycle), detaches from the old parent first, and the slot ends up exactly once in the new parent\'s chain'}@*/
 /*@unit {'name':'c04_free_slot', 'props':['C04','C03'], 'entry':'h_free', 'kind':'bounded', 'defines_quick':['NSLOTS=3','FREESLOT'], 'defines_thorough':['NSLOTS=3','FREESLOT'], 'unwind_quick':6, 'unwind_thorough':6,
   'bound':'pool of 3 slots (4 exhausts 12 GB in the SAT back end), any forest', 'claims':'Segment::freeSlot detaches the slot from its parent and all its children from it (forest predicate holds over the remaining slots, nothing names the freed slot), moves first/last off it, resets it and pushes it on the free list'}@*/
-/*@unit {'name':'c04_put_copy', 'props':['C04'], 'entry':'h_put_copy', 'kind':'bounded', 'defines_quick':['NSLOTS=3','PUTCOPY'], 'defines_thorough':['NSLOTS=4','PUTCOPY'], 'unwind_quick':6, 'unwind_thorough':7,
+/*@unit {'name':'c04_put_copy', 'props':['C04','C03'], 'entry':'h_put_copy', 'kind':'bounded', 'defines_quick':['NSLOTS=3','PUTCOPY'], 'defines_thorough':['NSLOTS=4','PUTCOPY'], 'unwind_quick':6, 'unwind_thorough':7,
   'bound':'pool of 3 / 4 slots, any forest', 'claims':'the put_copy opcode never leaves a slot whose children name it while its child chain is gone: it dies when the overwritten slot is attached or has children; otherwise the forest predicate is preserved and the list links of the overwritten slot are kept'}@*/
 
 /*@unit {'name':'c04_link_clusters', 'props':['C04'], 'tiers':['thorough'], 'entry':'h_link', 'kind':'bounded', 'defines_quick':['NSLOTS=3','LINKC'], 'defines_thorough':['NSLOTS=3','LINKC'], 'unwind_quick':5, 'unwind_thorough':5,
@@ -223,17 +223,28 @@ void h_free(void)
 {
     bool live[NSLOTS]; all_live(live);
     havoc_links();
+    Slot *s = pick_slot();
+    /* two kinds of slots get freed: stream slots, and TEMP_COPY slots - a memcpy of a stream slot that is in nobody's chain
+       and whose child pointer refers to children that belong to the original */
+    bool copy_case = nondet_bool() && s;
+    if (copy_case) live[IDX(s)] = false;
     __CPROVER_assume(wf_forest(live) && bases_unlinked(live));      /* assumption: no base-chain links (they are built by linkClusters at finalise) */
+    if (copy_case) {
+        __CPROVER_assume(s->m_child == (Slot *)0 || s->m_child->m_parent != s);
+        for (int i = 0; i < NSLOTS; ++i) if (live[i]) __CPROVER_assume(g_pool[i].m_parent != s && g_pool[i].m_child != s && g_pool[i].m_sibling != s);
+    }
     Segment sg; sg.m_first = pick_slot(); sg.m_last = pick_slot(); sg.m_freeSlots = (Slot *)0;
     g_numUser = 2;                 /* Silf::numUser(): the user-attribute block of a slot (fixed size in this universe) */
-    Slot *s = pick_slot();
     Slot *first0 = sg.m_first, *last0 = sg.m_last;
     Slot *nx = s ? s->m_next : (Slot *)0, *pv = s ? s->m_prev : (Slot *)0;
+    Slot saved[NSLOTS]; for (int i = 0; i < NSLOTS; ++i) saved[i] = g_pool[i];
     Segment_freeSlot(&sg, s);
     if (s) {
         live[IDX(s)] = false;
         __CPROVER_assert(wf_forest(live), "freeSlot: the forest predicate holds over the remaining slots");
         for (int i = 0; i < NSLOTS; ++i) if (live[i]) __CPROVER_assert(g_pool[i].m_parent != s && g_pool[i].m_child != s && g_pool[i].m_sibling != s, "freeSlot: no remaining slot names the freed slot in its attachment links");
+        if (copy_case) for (int i = 0; i < NSLOTS; ++i) if (live[i])
+            __CPROVER_assert(g_pool[i].m_parent == saved[i].m_parent && g_pool[i].m_child == saved[i].m_child && g_pool[i].m_sibling == saved[i].m_sibling, "freeSlot of a temporary copy leaves the attachments of the stream slots alone (the copy's child pointer belongs to the original)");
         __CPROVER_assert(sg.m_first == (first0 == s ? nx : first0) && sg.m_last == (last0 == s ? pv : last0), "freeSlot: first/last move off the freed slot");
         __CPROVER_assert(sg.m_freeSlots == s && s->m_parent == (Slot *)0 && s->m_child == (Slot *)0 && s->m_sibling == (Slot *)0 && s->m_prev == (Slot *)0, "freeSlot: the slot is reset and pushed on the free list");
     }
@@ -253,7 +264,7 @@ void h_put_copy(void)
     for (int i = 0; i < NSLOTS + 1; ++i) sm.m_slot_map[i] = pick_slot();
     rb.smap_ = &sm; rb.status_ = &st; rb.map = &sm.m_slot_map[1]; g_died = false;
     rb.is = pick_slot();
-    Slot *cur = rb.is;
+    Slot *cur = rb.is; bool was_deleted = cur && Slot_isDeleted_0(cur);
     Slot *nx = cur ? cur->m_next : (Slot *)0, *pv = cur ? cur->m_prev : (Slot *)0;
     byte *data = malloc(1); __CPROVER_assume(data);
     const byte *dpv = data; stack_t *spv = 0;
@@ -261,6 +272,7 @@ void h_put_copy(void)
     (void)cont;
     __CPROVER_assert(wf_forest(live), "put_copy: the forest predicate holds afterwards (an overwritten slot never keeps children that name it)");
     if (cur && !g_died) __CPROVER_assert(cur->m_next == nx && cur->m_prev == pv, "put_copy: the list links of the overwritten slot are kept");
+    if (cur && !g_died && !was_deleted) __CPROVER_assert(!Slot_isDeleted_0(cur) && !Slot_isCopied_0(cur), "put_copy: a live slot never inherits the deleted / copied mark of the slot it was copied from (collectGarbage frees marked slots)");
     CANARY();
 }
 #endif
